@@ -10,8 +10,8 @@ import (
 // Program.FuncOfLit know them by); a substitution function can replace expressions on the way. For every copied node the
 // type information of the original is registered for the copy, so rules keep resolving callees, fields and variables.
 type cloner struct {
-	info  *types.Info
-	subst func(e ast.Expr) ast.Expr // non-nil result: use it instead of copying e
+	info   *types.Info
+	subst  func(e ast.Expr) ast.Expr // non-nil result: use it instead of copying e
 	hitLit bool                      // a substitution was wanted inside a function literal (views give up then)
 }
 
